@@ -107,6 +107,17 @@ for name, f, k, tier, goals in [
                                                "subject); caller input in [-1000,1000]" % k})))
 
 
+for name, f, k, durs in [
+    ("oneof_fallback_durations", C.oneof_basic, 2, {"C1", "C2"}),
+    ("recurrent_durations", lambda: C.rec_simple(1, True), 2, {"M", "D"}),
+    ("switch_shared_case_3runs", C.switch_shared_case, 3, set()),
+    ("oneof_diamond_3runs", C.oneof_diamond, 3, set()),
+    ("rec_with_switch_2runs", lambda: C.rec_with_switch(1), 2, set()),
+]:
+    register(Job("C07", name, make_c07(f, k, {"dur_nodes": durs} if durs else {"sym_dur": False}), tier="thorough", budget_s=2400,
+                 doc=doc(name, SYM7, {"bounds": "%d sequential runs on one chart; symbolic durations for %s" % (k, sorted(durs) or "no node")})))
+
+
 # ------------------------------------------------------------------------------------ C08
 def make_c08(spec_factory: Any, share: str = "chart", beh_kw: Optional[Dict[str, Any]] = None,
              cancel: Optional[int] = None) -> Any:
